@@ -47,6 +47,14 @@ CHECKS["C17"] = (
     "5/C17",
 )
 
+CHECKS["C19"] = (
+    "ToposortOps.tla + Toposort.tla + Kahn.tla + ToposortGen.tla + TraceToposort.tla",
+    "TLC: the backtracking enumerator as a stack machine (ResultInv: bag of results = orderings by permutation filtering; RestoreInv, IndegInv, FrameInv) for every digraph on <= 3 vertices under every set-iteration order and on 4 vertices under ascending order; Kahn queue machine under every insertion/append order; every graph replayed through toposort_all / toposort in several dict presentations; random 5-7 vertex graphs and precedence graphs validated by a TLA+ trace spec",
+    "Model checking of both routines as state machines against the declarative set of orderings, bounded-exhaustive spec->code replay (65536 + 531 graphs x 6 presentations), trace validation of larger graphs.",
+    "Trusts TLC and AllOrders (permutation filtering) of ToposortOps.tla; graphs are dicts vertex -> set of successors; <= 4 vertices exhaustively, 5-7 sampled.",
+    "5/C19",
+)
+
 NOT_YET = {}
 
 
